@@ -9,5 +9,5 @@ T=$(mktemp -d "${TMPDIR:-/var/tmp}/verif-setup.XXXXXX") || exit 2
 trap 'rm -rf "$T"' EXIT
 (cd sim && go build -o "$T/simcheck" .) || exit 2
 if [ -d tools/instrument ]; then (cd tools/instrument && go build -o "$T/instrument" .) || exit 2; fi
-if [ -d race ]; then (cd race && go test -race -c -o "$T/race.test" . ) || exit 2; fi
+(cd sim && go build -race -o "$T/simcheck-race" .) || exit 2
 echo "setup ok"
